@@ -59,6 +59,17 @@ def _work(item):
     for l in res.leaves:
         k = f"{l['pc']}:{l['err']}:{'closed' if l['closed'] else 'open'}"
         out["outcomes"][k] = out["outcomes"].get(k, 0) + 1
+    # A forced pick (one candidate) after a unit can look like the branch not taken of the stop comparison.  The counterfactual only
+    # explains a divergence if the implementation then goes on as that branch does: if the very next event fails as well, the
+    # explanation is refuted and the divergence is charged to the clauses that failed (selection law, candidates).
+    if tree is not None:
+        bad_nodes = {d.get("node", -1) for d in res.diags}
+        for d in res.diags:
+            n = d.get("node", -1)
+            if "stop-rule-counterfactual-explains" in d["failed"] and n > 0:
+                kids = tree.nodes[n - 1]["kids"]
+                if kids and all(k in bad_nodes for k in kids):
+                    d["failed"] = [c for c in d["failed"] if c != "stop-rule-counterfactual-explains"] + ["counterfactual-refuted-by-next-event"]
     for d in res.diags[:200]:
         n = d.get("node", -1)
         node = tree.nodes[n - 1] if tree is not None and n > 0 else {"ev": {}, "obs": {}}
@@ -195,7 +206,7 @@ def run(prop, tier):
         invs = list(PROP_INVARIANTS[prop])
         if prop == "C06" and expect_wellposed:
             invs.append("WellPosed")
-        return G.model_check(mol, targets, invs, liveness=(prop == "C06"), tag="mc", workers=2)
+        return G.model_check(mol, targets, invs, liveness=(prop == "C06"), tag="mc", workers=2, refine=(prop == "C07"))
 
     for it, r in zip(mc_items, G.parallel(mc_one, mc_items, workers=6)):
         mol = it[0]
@@ -232,6 +243,13 @@ def run(prop, tier):
                     print(r["tail"])
                     raise MachineryError(f"TLC simulation failed on {m.name}")
         mc_results.append({"name": "simulation-mode", "instances": len(big), "behaviours_each": 60, "max_depth": 600})
+
+    if prop == "C07":
+        # the abstract machine every instance above was checked to implement: its theorem for ALL masses and targets (proof system)
+        n_proved, _, t_pr = common.run_tlapm("FirstCrossingProofs")
+        mc_results.append({"name": "unbounded-proof", "module": "spec/proofs/FirstCrossingProofs.tla", "tool": "tlapm (TLAPS)", "obligations_proved": n_proved,
+                           "seconds": round(t_pr, 2), "theorem": "Spec => []StoppedAtFirstCrossing",
+                           "bound_to_the_machine_by": "PROPERTY ImplementsFirstCrossing of spec/GenerateRefinesFC.tla, checked by TLC on every model instance"})
 
     # ---- (2) conformance ----
     census = {}
